@@ -25,6 +25,7 @@ from harness import common, gen, stubtex
 from harness.checks import c12_cli
 
 ID = "C12"
+NOTES = {}  # observations that are not violations of the property (counted into the distribution)
 RULE = (
     "input files in the README format, written to a temp dir and given to the real `reconcile` "
     "sub-command in-process (argparse parser built as cli/__main__.py does, stdout/stderr captured): "
@@ -407,9 +408,25 @@ def check_object(case, obj, mincost):
             return f"{key} has an unnamed node: {inp[key]}"
         if len(set(names)) != len(names):
             return f"{key} has colliding names: {inp[key]}"
-        want = expected_names(nt, prefix)
-        if names != want:
-            return f"{key} names {names}, expected {want}"
+        # the property: existing names untouched; every unnamed ancestor becomes <prefix><number>, a name the input
+        # does not use, numbered in pre-order (increasing).  WHICH numbers (the first free ones) is the business of
+        # the model tie (op c12_label), not of the property.
+        given_seq = [n["n"] for n in pre(nt)]
+        given = {g for g in given_seq if g}
+        last = -1
+        for got_name, g in zip(names, given_seq):
+            if g:
+                if got_name != g:
+                    return f"{key}: node named {g!r} in the input is named {got_name!r} in the output {inp[key]}"
+                continue
+            m_ = re.fullmatch(re.escape(prefix) + r"([0-9]+)", got_name)
+            if not m_ or got_name in given:
+                return f"{key}: generated name {got_name!r} is not a fresh {prefix}<number> ({inp[key]})"
+            if int(m_.group(1)) <= last:
+                return f"{key}: generated names are not numbered in pre-order: {names}"
+            last = int(m_.group(1))
+        if names != expected_names(nt, prefix):
+            NOTES["numbering differs from first-free indices"] = NOTES.get("numbering differs from first-free indices", 0) + 1
         if arity != [len(n["k"]) for n in pre(nt)]:
             return f"{key} topology changed: {inp[key]}"
         if colours != [n["c"] for n in pre(nt)]:
@@ -472,7 +489,8 @@ def check_case(case, tmp, draw_budget=3, rng=None):
             return "no 'Minimum cost:' line on stderr", obs
         if not r["text"].endswith("\n") or not lines:
             return "output is not a sequence of newline-terminated lines", obs
-        mincost = float(m.group(1)) if m.group(1) in ("inf", "Infinity") else int(m.group(1))
+        txt = m.group(1)
+        mincost = float(txt) if txt in ("inf", "Infinity", "nan") or not re.fullmatch(r"-?[0-9]+", txt) else int(txt)
         objs = []
         for ln in lines:
             try:
@@ -678,6 +696,9 @@ def run(ctx, res):
     tie(ctx, res, reqs)
     # CLI glue model (eval_cost grammar, read_input, dump_results, reconcile/draw status logic)
     c12_cli.run_cli(ctx, res)
+    for k, v in NOTES.items():
+        res.dist[k] += v
+    NOTES.clear()
 
 
 def model_call(algo, has_syn, solutions, o):
